@@ -28,8 +28,8 @@ TOLERANCES = {
 }
 ASSUMPTIONS = ["loop model of vf.oracles.gridmodel (numbering convention of C07)"]
 FLOORS = {
-    "quick": {"divergence_matrix": 500, "face_to_cell_model": 1500, "cell_to_face_model": 3000, "tangential_constant": 300},
-    "thorough": {"divergence_matrix": 5000, "face_to_cell_model": 15000, "cell_to_face_model": 30000, "tangential_constant": 3000},
+    "quick": {"grid_rejudged_after_operators": 300, "divergence_matrix": 500, "face_to_cell_model": 1500, "cell_to_face_model": 3000, "tangential_constant": 300},
+    "thorough": {"grid_rejudged_after_operators": 3000, "divergence_matrix": 5000, "face_to_cell_model": 15000, "cell_to_face_model": 30000, "tangential_constant": 3000},
 }
 
 
@@ -54,7 +54,8 @@ def run_shard(spec, R):
     from vf.checks import c07
     from vf.gen.images import rng_for
 
-    c07.attach(R, ["c06-workload"])
+    c07_source = ["c06-workload"]
+    c07.attach(R, c07_source)
     rng = rng_for(spec["seed"], "C06", spec["shard"])
     eps = np.finfo(float).eps
     shapes = all_shapes()
@@ -195,6 +196,13 @@ def run_shard(spec, R):
                                 if abs(tang[i][f] - a[dp]) > 8 * eps * abs(a[dp]):
                                     good = False
                 R.check(good, "tangential_constant", case)
+            # quiescent point: every operator of this case has been built on (and applied with) the grid object; its
+            # numbering and connectivity are judged again (operators must not write into the grid they were given)
+            src_before = c07_source[0]
+            c07_source[0] = "c06:after_operators"
+            c07.judge_grid(R, grid, "c06:after_operators")
+            c07_source[0] = src_before
+            R.count("grid_rejudged_after_operators")
             if si < 2 and draw == 0:
                 R.sample({"shape": list(shape), "voxel_size": h, "faces": nf, "flux_head": u[:4].tolist()})
     R.count("boundary_wrapped_calls", R.evaluations)
